@@ -43,7 +43,33 @@ Judge(rec) ==
           <<class = "plain" => (o.ok /\ o.signer = "none" /\ ref.wf /\ ParasMatch(o.paras, ref.paras)),
             "plain document not read faithfully / signer reported for unsigned input">> >>)
 
+\* ---- several readers alive in one process -------------------------------------------------------------
+\* abstract state per reader: the document it was opened on and how many paragraphs it has handed out.  The
+\* k-th Next on a reader returns the k-th paragraph of ITS document, then end-of-input for ever.
+JudgeOps(rec) ==
+    LET ops == rec.in.ops
+        DocOf(r) == rec.in.docs[ops[CHOOSE j \in 1..Len(ops) : ops[j].op = "open" /\ ops[j].r = r].d]
+        KeyOf(r) == rec.in.keys[ops[CHOOSE j \in 1..Len(ops) : ops[j].op = "open" /\ ops[j].r = r].d]
+        OpenOf(r) == ops[CHOOSE j \in 1..Len(ops) : ops[j].op = "open" /\ ops[j].r = r]
+        Signer(r) == IF OpenOf(r).nil \/ KeyOf(r) = "" THEN "none" ELSE KeyOf(r)
+        Nth(i) == Cardinality({j \in 1..i : ops[j].op = "next" /\ ops[j].r = ops[i].r})
+        Bad(i) == LET o == rec.steps[i]  r == ops[i].r IN
+                  \/ o.panic
+                  \/ o.signer # Signer(r)
+                  \/ IF ops[i].op = "open" THEN o.kind # "opened"
+                     ELSE LET ref == RefRead(DocOf(r))  k == Nth(i) IN
+                          IF k <= Len(ref.paras) THEN ~(o.kind = "para" /\ ParasMatch(<<o.para>>, <<ref.paras[k]>>))
+                          ELSE o.kind # "eof"
+        bad == {i \in 1..Len(ops) : Bad(i)}
+        first == CHOOSE i \in bad : \A j \in bad : i <= j
+    IN IF Len(rec.steps) # Len(ops) THEN V(FALSE, "reader-lifecycle", "missing steps")
+       ELSE IF bad = {} THEN V(TRUE, "reader-lifecycle", "")
+       ELSE V(FALSE, "reader-lifecycle", "with several readers alive in one process, a reader (" \o ops[first].op \o
+              ") does not deliver exactly the paragraphs of its own document followed by end-of-input, or reports the wrong signer")
+
+JudgeAny(rec) == IF rec.ev = "cs_ops" THEN JudgeOps(rec) ELSE Judge(rec)
+
 Init == l \in 1..Len(Trace) /\ verdict = Pending
-Next == verdict.class = "pending" /\ verdict' = Judge(Trace[l]) /\ UNCHANGED l
+Next == verdict.class = "pending" /\ verdict' = JudgeAny(Trace[l]) /\ UNCHANGED l
 Spec == Init /\ [][Next]_vars
 =============================================================================
